@@ -2097,7 +2097,9 @@ def node_vars(a):
     if k == "union":
         return node_vars(a[1]) | node_vars(a[2])
     if k == "leftjoin":
-        return node_vars(a[1]) | node_vars(a[2]) | expr_annot_vars(a[3])
+        # the condition binds nothing: since main's repair "the condition of an OPTIONAL binds nothing" `_addVars`
+        # leaves the `expr` child out, as it does for Filter and Extend
+        return node_vars(a[1]) | node_vars(a[2])
     if k == "filter":
         return node_vars(a[2])
     if k == "extend":
@@ -2147,3 +2149,37 @@ def annotation_mismatches(a, out=None):
     else:
         raise ValueError(a)
     return out
+
+
+def annot_line(a):
+    """the annotations found on rdflib's own tree (outside EXISTS), in pre-order, as the driver's `annot` command prints
+    those that the Lean model of `analyse` / `_addVars` (RV/C04/Analysis.lean) computes for the same tree"""
+    out = []
+
+    def sset(v):
+        return "none" if v == "none" else ",".join(str(x) for x in sorted(set(_ints(v))))
+
+    def walk(a):
+        k = a[0]
+        if k in ("bgp", "values"):
+            return
+        if k == "join":
+            out.append("J" + a[1]); walk(a[2]); walk(a[3])
+        elif k == "union":
+            walk(a[1]); walk(a[2])
+        elif k == "leftjoin":
+            out.append("L" + sset(a[4]) + "|" + sset(a[5])); walk(a[1]); walk(a[2])
+        elif k == "filter":
+            out.append("F" + sset(a[3])); walk(a[2])
+        elif k == "extend":
+            out.append("E" + sset(a[4])); walk(a[1])
+        elif k == "minus":
+            out.append("M" + sset(a[3]) + "|" + sset(a[4])); walk(a[1]); walk(a[2])
+        elif k == "graph":
+            walk(a[2])
+        elif k == "project":
+            walk(a[1])
+        else:
+            raise ValueError(a)
+    walk(a)
+    return "annot " + " ".join(out)
